@@ -647,11 +647,15 @@ class Sandbox:
         else:
             self._current_stdout.append(PrintingStringIO())
         # And do the patches
-        self._start_patches(
-            patch.dict('sys.modules', overridden_modules),
-            patch('sys.stdout', self._current_stdout[-1]),
-            patch.object(time, 'sleep', return_value=None),
-        )
+        try:
+            self._start_patches(
+                patch.dict('sys.modules', overridden_modules),
+                patch('sys.stdout', self._current_stdout[-1]),
+                patch.object(time, 'sleep', return_value=None),
+            )
+        except BaseException:
+            self._current_stdout.pop()
+            raise
 
     def _stop_mocking(self, context: SandboxContext):
         """ Turn off any patches, store output """
@@ -671,9 +675,18 @@ class Sandbox:
     # Patching Functionality
     def _start_patches(self, *patches):
         """ Helper function to start and keep track of multiple patches """
+        started = []
+        try:
+            for a_patch in patches:
+                a_patch.start()
+                started.append(a_patch)
+        except BaseException:
+            # All or nothing: a patch that cannot start (e.g., `sys` itself
+            # was mocked) must not leave the earlier ones in effect
+            for a_patch in reversed(started):
+                a_patch.stop()
+            raise
         self._current_patches.append(patches)
-        for a_patch in patches:
-            a_patch.start()
 
     def _stop_patches(self):
         """ Helper function to end any tracked patches """
